@@ -129,7 +129,7 @@ mutual
   partial def cover : Init → Ty → Nat → List Nat → List Nat
     | .arr cs, .array e _, off, m => coverArr cs e off m
     | .struct _ cs, .struct ms _ _, off, m => coverMs cs ms off m
-    | .union mem cs, .union ms _ _, off, m =>
+    | .union _ mem cs, .union ms _ _, off, m =>
       let k := match mem with
         | some k => k
         | none => (InitSpec.nextNamed ms ms.length 0).getD 0
